@@ -29,7 +29,8 @@ from eliot import Logger, log_message  # noqa: E402
 PROPERTY = "C19"
 LEVEL = "fault_enumeration"
 RULE = (
-    "1-3 start/stop cycles of one ThreadedWriter; per cycle 1-3 producer threads x 0-30 messages each (an order lock "
+    "1-3 start/stop cycles of one ThreadedWriter; per cycle 1-3 producer threads x 0-30 messages each (occasionally one burst "
+    "of 10050-12000 messages against a blocked destination) (an order lock "
     "around 'record offer; call writer' defines the offered order); a failure mask over the wrapped destination's calls; a "
     "gate on the wrapped destination with which the case decides how many messages have been written when stopService is "
     "called (0..all) and releases the rest in generated steps; optionally a pause right after the service is marked "
@@ -39,8 +40,8 @@ RULE = (
     "position, and does complete once the gate opens; a masked failure loses only that call; after stop nothing more "
     "arrives (also not through eliot's own logging) and a later cycle behaves the same. Facets interleaved(-enum): "
     "producers, the writer thread (created through a scheduled stand-in for `threading`, cooperative queue) and the stop "
-    "request run as workers of the line-level scheduler over eliot/logwriter.py under generated plans and every single "
-    "preemption; every message whose offer returned before stopService was called must be written exactly once, "
+    "request run as workers of the scheduler over eliot/logwriter.py at source-line and at bytecode-instruction granularity, "
+    "under generated plans and enumerated preemptions; every message whose offer returned before stopService was called must be written exactly once, "
     "per-producer order kept, and stopService's result must complete. Non-trivial: stop requested while "
     ">= 1 message is still queued, or a failure followed by further messages, or >= 2 producers. Distinct = canonical JSON."
 )
@@ -315,7 +316,7 @@ def classify(case, info):
 def strategy():
     cycle = st.builds(
         lambda producers, wbs, steps, pause, hold: {"producers": producers, "written_before_stop": wbs, "release_steps": steps, "pause": pause, "hold_reader": hold},
-        st.lists(st.integers(0, 30), min_size=1, max_size=3),
+        st.one_of(st.lists(st.integers(0, 30), min_size=1, max_size=3), st.lists(st.integers(0, 30), min_size=1, max_size=3), st.sampled_from([[10050], [12000, 3]])),
         st.integers(0, 40),
         st.lists(st.integers(1, 20), max_size=3),
         st.sampled_from([False, False, False, False, False, True]),
@@ -340,10 +341,13 @@ def check_interleaved(case):
     from .. import sched
     from eliot import logwriter as lw
 
-    s = sched.Scheduler(("eliot/logwriter.py",), case["plan"], grace=1.0, total_timeout=30.0)
-    saved = (lw.threading, lw.SimpleQueue)
-    lw.threading = sched.scheduled_threading(s)
-    lw.SimpleQueue = sched.CoopQueue
+    s = sched.Scheduler(("eliot/logwriter.py",), case["plan"], grace=1.0, total_timeout=30.0, opcodes=bool(case.get("opcodes")))
+    # whatever blocking primitives the module uses are made cooperative (it may be a modified tree)
+    saved = {}
+    for name, repl in (("threading", sched.scheduled_threading(s)), ("SimpleQueue", sched.CoopQueue), ("Queue", sched.CoopQueue), ("queue", sched.queue_module())):
+        if hasattr(lw, name):
+            saved[name] = getattr(lw, name)
+            setattr(lw, name, repl)
     sched.CoopQueue._scheduler = s
     reactor = Reactor()
     received = []
@@ -409,7 +413,8 @@ def check_interleaved(case):
         idents = set(i for _, i in received)
         require(len(idents) <= 1, "several-writer-threads", "written by %d threads" % len(idents))
     finally:
-        lw.threading, lw.SimpleQueue = saved
+        for name, value in saved.items():
+            setattr(lw, name, value)
         sched.CoopQueue._scheduler = None
         reactor.pool.stop()
         try:
@@ -431,10 +436,11 @@ def interleaved_strategy():
     from .. import sched
 
     return st.builds(
-        lambda wait, mask, plan, producers: {"wait_for_producers": wait, "mask": sorted(set(mask)), "plan": plan, "producers": producers},
+        lambda opc, wait, mask, plan, producers: {"opcodes": opc, "wait_for_producers": wait, "mask": sorted(set(mask)), "plan": plan, "producers": producers},
+        st.sampled_from([False, False, True]),
         st.booleans(),
         st.lists(st.integers(0, 6), max_size=2),
-        sched.plans(max_segments=10, max_steps=8, workers=4, min_segments=2),
+        sched.plans(max_segments=12, max_steps=14, workers=4, min_segments=2),
         st.lists(st.integers(1, 3), min_size=1, max_size=2),
     )
 
@@ -454,6 +460,11 @@ def interleaved_enum_runner(mod, facet, tier, seed, shard, nshards, stats):
                     cases.append({"wait_for_producers": wait, "mask": [], "plan": [[k, a], [10**6, b]], "producers": [2]})
                     if k % 2 == 0:
                         cases.append({"wait_for_producers": wait, "mask": [0], "plan": [[k, a], [4, b], [10**6, 3 - a - b]], "producers": [2]})
+    # bytecode granularity: two producers and the writer thread; producer 1 preempted at every instruction of its
+    # first offer while producer 2 offers and the writer drains, then producer 1 resumes
+    for k in range(0, 40):
+        for j in (6, 14, 30):
+            cases.append({"opcodes": True, "wait_for_producers": True, "mask": [], "plan": [[2, 0], [k, 1], [j, 2], [60, 3], [10**6, 1]], "producers": [2, 2]})
     stats.extra["enumerated_plans"] = len(cases)
     enumerate_cases(mod, facet, cases, shard, nshards, stats, exhaustive=True)
 
